@@ -44,6 +44,7 @@ type runRecord struct {
 	Cmds       int            `json:"cmds"`
 	Replies    int            `json:"replies"`
 	SchedFp    string         `json:"schedFp"`
+	HistFp     string         `json:"histFp,omitempty"`
 	Nontrivial bool           `json:"nontrivial"`
 	Faults     map[string]int `json:"faults,omitempty"`
 	Probes     map[string]int `json:"probes,omitempty"`
@@ -116,7 +117,11 @@ func build(race bool) string {
 }
 
 func runWorker(bin string, extra map[string]string, timeout time.Duration) (stdout string, err error) {
-	cmd := exec.Command(bin, "-test.run", "^TestWorker$", "-test.timeout", "0", "-test.cpu", "1")
+	cpu := "1"
+	if c := extra["VS_CPU"]; c != "" {
+		cpu = c
+	}
+	cmd := exec.Command(bin, "-test.run", "^TestWorker$", "-test.timeout", "0", "-test.cpu", cpu)
 	cmd.Env = env()
 	for k, v := range extra {
 		cmd.Env = append(cmd.Env, k+"="+v)
@@ -183,6 +188,10 @@ func main() {
 		os.Exit(2)
 	}
 	prop := os.Args[1]
+	if prop == "selftest-determinism" {
+		selftestDeterminism(os.Args[2:])
+		return
+	}
 	tier := os.Getenv("VERIF_TIER")
 	replay := ""
 	seconds, runs, workers := 0, 0, runtime.NumCPU()
